@@ -122,7 +122,11 @@ func negotiate(c *core.Ctx) {
 	// exits
 	var probs []string
 	okExits, errExits := 0, 0
-	_, trunc := astx.ForEachExit(info, fd.Body, func(s *astx.State, kind astx.ExitKind, ret *ast.ReturnStmt) {
+	// three visits per block: paths that run the accept loop twice must reach an exit, otherwise a
+	// missing `break` (second adoption) would never be observed
+	wk := astx.NewWalker(info, fd.Body)
+	wk.MaxVisits = 3
+	wk.OnExit = func(s *astx.State, kind astx.ExitKind, ret *ast.ReturnStmt) {
 		if ret == nil || len(ret.Results) != 3 {
 			probs = append(probs, "exit without three explicit results")
 			return
@@ -174,7 +178,9 @@ func negotiate(c *core.Ctx) {
 		if !containsOf(factsOf(s), sent, false) {
 			probs = append(probs, "an error exit that is not the unsupported-compression branch")
 		}
-	})
+	}
+	wk.Walk()
+	trunc := wk.Truncated
 	if trunc {
 		c.Undecided("exits", fd.Pos(), "path enumeration truncated")
 		return
